@@ -235,6 +235,8 @@ pub struct SimNode {
     pub pay_placeholder_preimage: bool,
     /// error messages are several KiB of mixed-width UTF-8 in this run
     pub big_messages: bool,
+    /// getinfo carries warning_bitcoind_sync / warning_lightningd_sync in this run
+    pub sync_warnings: bool,
     pub stats: NodeStats,
 }
 
@@ -289,6 +291,7 @@ impl SimNode {
             notif_queue: Vec::new(),
             pay_placeholder_preimage: true,
             big_messages: false,
+            sync_warnings: false,
             stats: NodeStats::default(),
         }
     }
@@ -510,7 +513,7 @@ impl SimNode {
     }
 
     fn getinfo(&self) -> SimReply {
-        SimReply::Result(json!({
+        let mut v = json!({
             "id": pool().local_pubkey.to_string(),
             "alias": "SIMNODE",
             "color": "02bf81",
@@ -525,7 +528,17 @@ impl SimNode {
             "network": "regtest",
             "fees_collected_msat": 0,
             "lightning-dir": "/l/regtest",
-        }))
+        });
+        // A node that is still catching up says so; the height it reports is
+        // the height it knows, and the plugin has no better source.
+        if self.sync_warnings {
+            match self.seq % 3 {
+                0 => v["warning_bitcoind_sync"] = json!("Bitcoind is not up-to-date with network."),
+                1 => v["warning_lightningd_sync"] = json!("Still loading latest blocks from bitcoind."),
+                _ => {}
+            }
+        }
+        SimReply::Result(v)
     }
 
     fn datastore_write(&mut self, p: &Value) -> SimReply {
